@@ -171,9 +171,16 @@ func runStreamHistory(c *fw.Ctx, prop string, rules map[string]bool) {
 	}
 	denoms := []string{lab.Denom, lab.Denom2, lab.DenomBig}
 	nb := r.Range(40, 60)
+	reimportAt := -1
+	if r.Chance(20) {
+		reimportAt = r.Range(10, nb-5)
+	}
 	for b := 0; b < nb && e.Halted == ""; b++ {
 		if e.Last == nil {
 			e.Last = e.L.Observe(e.L.Ctx())
+		}
+		if b == reimportAt {
+			e.Reimport()
 		}
 		if r.Chance(5) {
 			vf := []string{"0", "0.000000000000000001", "0.01", "0.5", "1", "0.333333333333333333", "0.999999999999999999"}
